@@ -1,5 +1,4 @@
 use std::{
-    cmp::Ordering,
     collections::HashMap,
     fmt::{Debug, Formatter},
 };
@@ -86,12 +85,14 @@ impl Graph {
             .collect::<Vec<_>>()
             .into_iter()
             .sorted_by(|a, b| {
-                let primary = b.node_rank.cmp(&a.node_rank);
-                if primary == Ordering::Equal {
-                    a.key.cmp(&b.key)
-                } else {
-                    primary
-                }
+                // ties are broken by what the entries say, never by their node ids:
+                // ids depend on the order in which the notes were built
+                b.node_rank
+                    .cmp(&a.node_rank)
+                    .then_with(|| a.key.cmp(&b.key))
+                    .then_with(|| a.search_text.cmp(&b.search_text))
+                    .then_with(|| a.line.cmp(&b.line))
+                    .then_with(|| path_texts(&a.path, self).cmp(&path_texts(&b.path, self)))
             })
             .collect::<Vec<_>>()
     }
@@ -552,10 +553,13 @@ impl GraphContext for &Graph {
     }
 }
 
-fn render_search_text(path: &NodePath, context: impl GraphContext) -> String {
+fn path_texts(path: &NodePath, context: impl GraphContext) -> Vec<String> {
     path.ids()
         .iter()
         .map(|id| context.get_text(*id).trim().to_string())
         .collect_vec()
-        .join(" ")
+}
+
+fn render_search_text(path: &NodePath, context: impl GraphContext) -> String {
+    path_texts(path, context).join(" ")
 }
